@@ -440,6 +440,10 @@ class GraphBuilder(BuilderBase):
         if parent is None:
             self._constant_cache: dict[tuple[Any, ir.DataType | None, Any], ir.Value] = {}
             self._functions: dict[ir.OperatorIdentifier, ir.Function] = {}
+            # All graphs built by this builder and its sub-builders; see _node_count().
+            self._all_graphs: list[ir.Graph] = [graph]
+        else:
+            self._root._all_graphs.append(graph)
 
     def opset(self, domain: str, version: int = 1) -> OpBuilder:
         """Create an OpBuilder bound to the given domain and version."""
@@ -500,8 +504,19 @@ class GraphBuilder(BuilderBase):
         """
         return self._get_or_create_constant(value, dtype)
 
+    def _node_count(self) -> int:
+        """Counter used in generated value and node names.
+
+        Counts the nodes of *all* graphs of the builder tree (root graph and every
+        subgraph built through :meth:`subgraph`), so that a name generated in a
+        subgraph can never repeat a name generated in an enclosing (or any other)
+        graph: ONNX forbids a subgraph from redefining a name of its outer scopes.
+        Without subgraphs this is ``self.graph.num_nodes()``.
+        """
+        return sum(g.num_nodes() for g in self._root._all_graphs)
+
     def _generate_node_name(self, op_type: str) -> str:
-        count = self.graph.num_nodes()
+        count = self._node_count()
         return self._qualify_node_name(f"{op_type}_node_{count}")
 
     def _adapt_outputs(
@@ -509,7 +524,7 @@ class GraphBuilder(BuilderBase):
     ) -> Sequence[ir.Value]:
         """Pre-create named output ir.Value objects for the graph."""
         if isinstance(outputs, int):
-            count = self.graph.num_nodes()
+            count = self._node_count()
             if outputs < 0:
                 raise ValueError(f"Number of outputs must be non-negative, got {outputs}")
             if outputs == 1:
@@ -738,7 +753,7 @@ class GraphBuilder(BuilderBase):
         # Adapt inputs similarly to call_op: promote constants/tensors to ir.Value.
         adapted_args = [self._input_to_ir_value(arg) for arg in args]
 
-        count = self.graph.num_nodes()
+        count = self._node_count()
         node_name = self._qualify_node_name(f"{function.name}_node_{count}")
 
         node = ir.node(
@@ -794,7 +809,7 @@ class GraphBuilder(BuilderBase):
         if _prefix:
             self.push_module(_prefix)
 
-        count = self.graph.num_nodes()
+        count = self._node_count()
         node_name_prefix = self._qualify_node_name(f"{function.name}_node_{count}/")
         nodes, outputs = _inliner.instantiate(graph, args, kwargs, prefix=node_name_prefix)
 
